@@ -401,7 +401,7 @@ static int Record(const vh::Args& args) {
 
 int main(int argc, char** argv) {
   InstallHook();
-  { vh::Args args(argc, argv); if (args.has("record")) return vh::RunRecorder(args.get("trace"), args.get("out"), [&]() { return Record(args); }, 240); }
-  vh::IsoOptions iso; iso.faultProperty = "C19"; iso.batch = 300; iso.watchdogSeconds = 20;
+  { vh::Args args(argc, argv); if (args.has("record")) return vh::RunRecorder(args.get("trace"), args.get("out"), [&]() { return Record(args); }, 1800); }
+  vh::IsoOptions iso; iso.faultProperty = "C19"; iso.batch = 300; iso.watchdogSeconds = 90;
   return vh::Main(argc, argv, Handle, true, iso);
 }
